@@ -681,6 +681,58 @@ func init() {
 		}
 		l.p("/-- in `Service.Write` a failing `jrnl.Write` iteration sets the returned error under the guard `n <= 0` (or unconditionally); false: under `!weInit`, which drops an error that follows a partial write -/")
 		l.p("def writeErrGuardIsNLeZero : Bool := %s", leanBool(guardNLe0))
+		// --- partition.Service.Shutdown: is every journal synced, unconditionally? (repair bbe6505) -----------------------------
+		// structural: inside Shutdown a function literal handed to a visitor contains a `<j>.Sync()` call; unconditional = it is a
+		// top-level statement of that literal (not under an if/switch/for). A Sync that is only conditional gives `false`
+		// (e.g. `if j.Count() > 0 { j.Sync() }`: Count() counts CONFIRMED records, so the first, still buffered write of a new
+		// partition is skipped); no Sync at all is a problem.
+		syncUncond, syncAny := false, false
+		if fd := funcDecl(fp, "Service", "Shutdown"); fd != nil {
+			isSync := func(n ast.Node) bool {
+				ce, ok := n.(*ast.CallExpr)
+				if !ok {
+					return false
+				}
+				se, ok := ce.Fun.(*ast.SelectorExpr)
+				return ok && se.Sel.Name == "Sync" && len(ce.Args) == 0
+			}
+			ast.Inspect(fd.Body, func(n ast.Node) bool {
+				fl, ok := n.(*ast.FuncLit)
+				if !ok {
+					return true
+				}
+				for _, st := range fl.Body.List {
+					if es, ok := st.(*ast.ExprStmt); ok && isSync(es.X) {
+						syncUncond = true
+					}
+				}
+				ast.Inspect(fl.Body, func(m ast.Node) bool {
+					if isSync(m) {
+						syncAny = true
+					}
+					return true
+				})
+				return true
+			})
+			// a plain loop over the journals instead of a visitor
+			ast.Inspect(fd.Body, func(n ast.Node) bool {
+				if rs, ok := n.(*ast.RangeStmt); ok {
+					for _, st := range rs.Body.List {
+						if es, ok := st.(*ast.ExprStmt); ok && isSync(es.X) {
+							syncUncond, syncAny = true, true
+						}
+					}
+				}
+				return true
+			})
+		} else {
+			problem("partition.Service.Shutdown not found")
+		}
+		if !syncAny {
+			problem("partition.Service.Shutdown: no journal Sync() found (the flush of acknowledged writes at a graceful stop)")
+		}
+		l.p("/-- `partition.Service.Shutdown` calls `Sync()` on every journal unconditionally (false: only under a condition, e.g. `Count() > 0`, which skips a journal whose records are all still buffered) -/")
+		l.p("def shutdownSyncsEveryJournal : Bool := %s", leanBool(syncUncond))
 		l.p("/-- `Service.Write` calls `iw.resetMinMaxTs()` somewhere in its loop -/")
 		l.p("def writeLoopResetsHull : Bool := %s", leanBool(resetCalled))
 		l.write()
